@@ -304,3 +304,38 @@ Proof.
     f_equal. f_equal. apply map_ext_in. intros q Hq. rewrite Forall_forall in IH.
     rewrite (IH q Hq PTop); [reflexivity|]. eapply forallb_forall in HF; [|exact Hq]. exact HF.
 Qed.
+
+(* ---- draft-4 boolean flags and their draft-6 spelling generate the same class tree ---------- *)
+Lemma cnormalize_idem c c' : cnormalize c = Some c' -> cnormalize c' = Some c'.
+Proof.
+  unfold cnormalize. destruct c as [mn mx xmn xmx mu]. cbn [c_min c_max c_xmin c_xmax c_mult].
+  destruct xmx as [|[|]|x]; destruct mx as [m1|]; destruct xmn as [|[|]|y]; destruct mn as [m2|];
+    intro H; try discriminate; injection H as <-; reflexivity.
+Qed.
+
+Lemma cnormalize_to_draft6 c : cnormalize c <> None -> cnormalize (to_draft6 c) = cnormalize c.
+Proof.
+  unfold to_draft6. destruct (cnormalize c) as [c'|] eqn:E; [|congruence].
+  intros _. apply cnormalize_idem in E. exact E.
+Qed.
+
+Lemma map_fst_keep {A B C} (g : A * B -> C) (l : list (A * B)) :
+  map fst (map (fun q => (fst q, g q)) l) = map fst l.
+Proof. rewrite map_map. reflexivity. Qed.
+
+Theorem gen_draft_invariant o fc : forall s p, gen o fc p (to_d6 s) = gen o fc p s.
+Proof.
+  induction s as [c| |lo hi| | |vs|s IH|s lo hi IH|s IH|alts IH|props closed IH] using schema_ind';
+    intros p; cbn [gen to_d6]; auto.
+  - destruct (drops_bounds fc p); [reflexivity|].
+    unfold to_draft6. destruct (cnormalize c) as [c'|] eqn:E; [|rewrite E; reflexivity].
+    rewrite (cnormalize_idem _ _ E). reflexivity.
+  - rewrite IH. reflexivity.
+  - rewrite IH. reflexivity.
+  - rewrite IH. reflexivity.
+  - f_equal. rewrite map_map. apply map_ext_in. intros a Ha. rewrite Forall_forall in IH. apply IH. exact Ha.
+  - rewrite map_fst_keep.
+    destruct (assign_names U0 Pyd o [] [] (map fst props)) as [names|]; [|reflexivity].
+    f_equal. f_equal. rewrite map_map. cbn [fst snd]. apply map_ext_in. intros q Hq. rewrite Forall_forall in IH.
+    rewrite (IH q Hq). reflexivity.
+Qed.
